@@ -149,6 +149,42 @@ type MapStore struct {
 
 func NewMapStore() *MapStore { return &MapStore{M: map[string]dtls.Session{}} }
 
+// AliasStore is a session store that keeps and hands out the very slices it was given (no defensive
+// copies), as simple in-memory stores do — the repository's own test store among them. Whatever the
+// library later does to a secret it obtained from Get, or passed to Set, happens to the stored session.
+type AliasStore struct {
+	mu sync.Mutex
+	M  map[string]dtls.Session
+}
+
+func NewAliasStore() *AliasStore { return &AliasStore{M: map[string]dtls.Session{}} }
+
+func (s *AliasStore) Set(key []byte, v dtls.Session) error {
+	s.mu.Lock()
+	defer s.mu.Unlock()
+	s.M[string(key)] = v
+	return nil
+}
+
+func (s *AliasStore) Get(key []byte) (dtls.Session, error) {
+	s.mu.Lock()
+	defer s.mu.Unlock()
+	return s.M[string(key)], nil
+}
+
+func (s *AliasStore) Del(key []byte) error {
+	s.mu.Lock()
+	defer s.mu.Unlock()
+	delete(s.M, string(key))
+	return nil
+}
+
+func (s *AliasStore) Len() int {
+	s.mu.Lock()
+	defer s.mu.Unlock()
+	return len(s.M)
+}
+
 func (s *MapStore) Set(key []byte, v dtls.Session) error {
 	s.mu.Lock()
 	defer s.mu.Unlock()
